@@ -127,21 +127,21 @@ def dec_close(v, n, s):
 
 
 # ------------------------------------------------------------------ binding A: one day
-def check_day(it, y, m, d, n, s, offs, full=True, conv=True):
-    """All conversions for the day (y, m, d) whose predicted day number is n,
-    with second-of-day s for the timed forms; offs = [(k, (y2, m2, d2)), ...]
-    are offsets with the predicted target date.  Returns (violations, count)."""
+def check_day(it, y, m, d, n, s, offs, mode="full"):
+    """Conversions for the day (y, m, d) whose predicted day number is n, with
+    second-of-day s for the timed forms; offs = [(k, (y2, m2, d2)), ...] are
+    offsets with the predicted target date.  mode: "direct" = only
+    ckl.date.to_oa_date / to_date; "light" = plus int(date), date(n); "full" =
+    plus every conversion form; "arith" = only the offsets.  The offsets are
+    checked in every mode but "direct".  Returns (violations, count)."""
     out = []
     cnt = 0
     ymd = (y, m, d)
 
-    def bad(key, what, case):
-        out.append((key, what, case))
-
     def direct(fn, arg, want, cmp):
         nonlocal cnt
         cnt += 1
-        case = {"kind": "direct", "fn": fn, "arg": arg, "ymd": list(ymd), "n": n, "s": s}
+        case = {"kind": "direct", "ymd": list(ymd), "n": n, "s": s}
         if fn == "to_oa_date":
             o = call(lambda: ckldate.to_oa_date(datetime.datetime(*arg)))
             key = "to_oa_date(%s)" % datetime.datetime(*arg).isoformat()
@@ -149,45 +149,44 @@ def check_day(it, y, m, d, n, s, offs, full=True, conv=True):
             o = call(lambda: ckldate.to_date(arg))
             key = "to_date(%r)" % (arg,)
         if o[0] == "host":
-            bad(key, "host-exception: %s (%s), expected %r" % (o[1], o[2], want), case)
+            out.append((key, "host-exception: %s (%s), expected %r" % (o[1], o[2], want), case))
         elif not safe(cmp, o[1]):
             shown = o[1].isoformat() if isinstance(o[1], datetime.datetime) else repr(o[1])
-            bad(key, "%s-mismatch: got %s, expected %r" % (fn, shown, want), case)
+            out.append((key, "%s-mismatch: got %s, expected %r" % (fn, shown, want), case))
         return o
 
-    h, mi, se = hms(s)
-    # date -> day number
-    direct("to_oa_date", [y, m, d], n, lambda v: v == n)
-    ot = direct("to_oa_date", [y, m, d, h, mi, se], "%d+%d/86400" % (n, s),
-                lambda v: abs(Fraction(v) - (n + Fraction(s, 86400))) <= TOL)
-    # day number -> date
-    direct("to_date", n, ymd + (0,), lambda v: fields(v) == ymd + (0,))
-    direct("to_date", float(n), ymd + (0,), lambda v: fields(v) == ymd + (0,))
-    direct("to_date", n + s / 86400, ymd + (s,), lambda v: fields(v) == ymd + (s,))
-    if ot[0] == "val" and isinstance(ot[1], (int, float)) and ot[1] != n + s / 86400:
-        # the exact number the code itself produced must come back as the same date
-        direct("to_date", ot[1], ymd + (s,), lambda v: fields(v) == ymd + (s,))
-    if not full:
+    if mode != "arith":
+        h, mi, se = hms(s)
+        # date -> day number
+        direct("to_oa_date", [y, m, d], n, lambda v: v == n)
+        ot = direct("to_oa_date", [y, m, d, h, mi, se], "%d+%d/86400" % (n, s),
+                    lambda v: abs(Fraction(v) - (n + Fraction(s, 86400))) <= TOL)
+        # day number -> date
+        direct("to_date", n, ymd + (0,), lambda v: fields(v) == ymd + (0,))
+        direct("to_date", n + s / 86400, ymd + (s,), lambda v: fields(v) == ymd + (s,))
+        if ot[0] == "val" and isinstance(ot[1], (int, float)) and ot[1] != n + s / 86400:
+            # the exact number the code itself produced must come back as the same date
+            direct("to_date", ot[1], ymd + (s,), lambda v: fields(v) == ymd + (s,))
+    if mode == "direct":
         return out, cnt
 
     # through the interpreter (one program; on any failure the parts are run one by one)
     D0, DT = lit(ymd), lit(ymd, s)
     decs = repr(n + s / 86400)
     parts = []
-    if conv:
+    if mode == "light":
         parts += [
             ("int(%s)" % D0, "int", n),
+            ("date(%d)" % n, "eq", ["date", y, m, d, 0]),
+        ]
+    elif mode == "full":
+        parts += [
             ("int(%s)" % DT, "int", n),
-            ("decimal(%s)" % D0, "dec", [n, 0]),
             ("decimal(%s)" % DT, "dec", [n, s]),
             ("date(%d)" % n, "eq", ["date", y, m, d, 0]),
             ("date(%s)" % decs, "eq", ["date", y, m, d, s]),
-            ("date(int(%s))" % DT, "eq", ["date", y, m, d, 0]),
-            ("date(decimal(%s))" % DT, "eq", ["date", y, m, d, s]),
             ("date(int(%s)) == %s" % (D0, D0), "true", True),
             ("date(decimal(%s)) == %s" % (DT, DT), "true", True),
-            ("int(date(%d))" % n, "int", n),
-            ("decimal(date(%s))" % decs, "dec", [n, s]),
         ]
     for k, tgt in offs:
         want = ["date"] + list(tgt) + [s]
@@ -197,11 +196,11 @@ def check_day(it, y, m, d, n, s, offs, full=True, conv=True):
             parts.append(("(%s + %d) - %d == %s" % (DT, k, k, DT), "true", True))
         else:
             parts.append(("%s - %d" % (DT, -k), "eq", want))
-            parts.append(("%s + (%d)" % (DT, k), "eq", want))
             parts.append(("(%s - %d) + %d == %s" % (DT, -k, -k, DT), "true", True))
         parts.append(("%s - %s" % (T, DT), "int", k))
-        parts.append(("(%s + (%d)) - %s" % (DT, k, DT), "int", k))
-        parts.append(("(%s + (%d)) - %s == %d" % (DT, k, DT, k), "true", True))
+        if mode != "light":
+            parts.append(("(%s + (%d)) - %s" % (DT, k, DT), "int", k))
+            parts.append(("(%s + (%d)) - %s == %d" % (DT, k, DT, k), "true", True))
     out2, c2 = check_parts(it, parts)
     return out + out2, cnt + c2
 
@@ -254,55 +253,66 @@ def category(src):
 
 
 _IT = None
+_TAB = None          # the TLC month table, inherited by the forked pool workers
 
 
 def _worker(chunk):
+    """One chunk of jobs -> (violations, evaluations, trace events, trace meta)."""
     global _IT
     if _IT is None:
         _IT = Interpreter(True, False)
     out = []
     cnt = 0
+    events, meta = [], []
     for job in chunk:
         if job[0] == "month":
             # every day of one month, direct conversions only, seeded times of day
             _tag, y, m, n0, ln, seed = job
             r = random.Random(seed)
             for d in range(1, ln + 1):
-                o, c = check_day(None, y, m, d, n0 + d - 1, r.randrange(86400), [], False)
+                o, c = check_day(None, y, m, d, n0 + d - 1, r.randrange(86400), [], "direct")
                 out += o
                 cnt += c
-            continue
-        (y, m, d, n, s, offs, full) = job
-        o, c = check_day(_IT, y, m, d, n, s, offs, full)
-        out += o
-        cnt += c
-    return out, cnt
+        elif job[0] == "traces":
+            _tag, seed, count = job
+            e, mt = record_traces(random.Random(seed), count, _TAB)
+            events += e
+            meta += mt
+        else:
+            (y, m, d, n, s, offs, mode) = job
+            o, c = check_day(_IT, y, m, d, n, s, offs, mode)
+            out += o
+            cnt += c
+    return out, cnt, events, meta
 
 
-def run_days(run, jobs, chunk=64):
-    """jobs: list of (y, m, d, n, s, offs, full) -> number of evaluations"""
+def run_jobs(run, jobs, chunk):
+    """-> (evaluations, trace events, trace meta); violations go to run"""
     chunks = [jobs[i:i + chunk] for i in range(0, len(jobs), chunk)]
-    total = 0
     if NPROC > 1 and len(chunks) > 1:
         ctx = multiprocessing.get_context("fork")
         with ctx.Pool(NPROC) as pool:
             results = pool.map(_worker, chunks, chunksize=1)
     else:
         results = [_worker(c) for c in chunks]
-    for out, cnt in results:
+    total = 0
+    events, meta = [], []
+    for out, cnt, ev, mt in results:
         total += cnt
+        events += ev
+        meta += mt
         for key, what, case in out:
             run.violation(key, what, case)
-    return total
+    return total, events, meta
 
 
-def offsets_for(tab, rng, n, how_many):
+def offsets_for(tab, rng, n, how_many, ends=True):
     """offsets from the stride set (both signs) and to both range ends, with
     the target date predicted by the TLC month table"""
     cand = [k for k in STRIDES if n + k <= LAST] + [-k for k in STRIDES if n - k >= FIRST]
     ks = rng.sample(cand, min(how_many, len(cand)))
-    ends = [FIRST - n, LAST - n]
-    ks.append(ends[rng.randrange(2)])
+    if ends:
+        ks.append([FIRST - n, LAST - n][rng.randrange(2)])
     return [(k, tab.date(n + k)) for k in ks]
 
 
@@ -514,96 +524,101 @@ def tlc_tables(run, quick):
 
 
 def run(run):
+    global _TAB
     quick = run.tier == "quick"
     rng = random.Random(run.seed)
     tab, walked, arith = tlc_tables(run, quick)
+    _TAB = tab
     if not arith:
         raise MachineryError("TLC exported no arithmetic cases")
 
     jobs = []
     seen = set()
 
-    def add_day(y, m, d, noffs=2, full=True, s=None):
+    def add_day(y, m, d, mode, noffs, s=None):
         if (y, m, d) in seen:
             return
         seen.add((y, m, d))
         n = tab.num(y, m, d)
         if s is None:
             s = rng.randrange(86400)
-        offs = offsets_for(tab, rng, n, noffs) if full else []
-        jobs.append((y, m, d, n, s, offs, full))
+        if mode == "light":
+            # one step across the nearest month / year boundary, predicted by the table
+            k = 1 if d > 15 else -1
+            offs = [(k, tab.date(n + k))] if FIRST <= n + k <= LAST else []
+        else:
+            offs = offsets_for(tab, rng, n, noffs, ends=(noffs > 1 or rng.random() < 0.25)) if noffs else []
+        jobs.append((y, m, d, n, s, offs, mode))
 
     # first / last three days of every month walked day by day
     for (y, m), (n, ln) in sorted(walked.items()):
         for d in (1, 2, 3, ln - 2, ln - 1, ln):
-            add_day(y, m, d)
+            add_day(y, m, d, "full", 2)
     nwalk = len(jobs)
-    # every year boundary 1900..9999 (seconds alternate between midnight-ish and random)
-    for y in range(1900, 10000):
-        add_day(y, 1, 1, noffs=1)
-        add_day(y, 12, 31, noffs=1)
-        add_day(y, 2, tab.first[(y, 2)][1], noffs=0)
-        add_day(y, 3, 1, noffs=0)
-    nbound = len(jobs) - nwalk
-    # random days
-    nrand = 20000 if quick else 200000
-    for _ in range(nrand):
-        y, m, d = tab.date(rng.randint(FIRST, LAST))
-        add_day(y, m, d, noffs=1)
-    nfull = len(jobs)
-    # fixed times of day the property text implies: midnight, noon, last second, 12:30:15
+    # fixed times of day: 12:30:15 and the last second of the day
     for (y, m, d), s in zip([(1900, 1, 1), (1969, 12, 31), (1970, 1, 1), (2020, 5, 5), (9999, 12, 31)] * 2,
                             [45015] * 5 + [86399] * 5):
         n = tab.num(y, m, d)
-        jobs.append((y, m, d, n, s, offsets_for(tab, rng, n, 2), True))
+        jobs.append((y, m, d, n, s, offsets_for(tab, rng, n, 2), "full"))
+    # every year boundary 1900..9999 and the end of every February
+    for y in range(1900, 10000):
+        add_day(y, 1, 1, "light", 0)
+        add_day(y, 12, 31, "light", 0)
+        add_day(y, 2, tab.first[(y, 2)][1], "direct", 0)
+        add_day(y, 3, 1, "direct", 0)
+    nbound = len(seen) - nwalk
+    # random days
+    nrand = 20000 if quick else 100000
+    for _ in range(nrand):
+        y, m, d = tab.date(rng.randint(FIRST, LAST))
+        add_day(y, m, d, "full", 1)
     ndays = len(jobs)
     if not quick:
         # every day of every month: direct conversions (to_oa_date / to_date, with a random time)
         for (n0, y, m, ln) in tab.rows:
             jobs.append(("month", y, m, n0, ln, rng.randrange(2 ** 30)))
             ndays += ln
-    rng.shuffle(jobs)               # far-future days are ~10x slower: spread them over the pool
-    evals = run_days(run, jobs, chunk=64 if quick else 24)
-    jobs = [j for j in jobs if j[0] != "month"]
-    run.sample({"DAY": {"date": list(jobs[0][:3]), "n": jobs[0][3], "second_of_day": jobs[0][4],
-                        "offsets": jobs[0][5]}})
-
     # arithmetic cases of the stepping machine
-    ajobs = []
     arith.sort(key=lambda r: (r["b"], r["k"]))
+    by_day = {}
     for r in arith:
         if tab.num(*r["b"]) != r["nb"] or tab.num(*r["e"]) != r["ne"] or r["ne"] - r["nb"] != r["k"]:
             raise MachineryError("DateArith case disagrees with the Date month table: %r" % (r,))
-    by_day = {}
-    for r in arith:
         by_day.setdefault(tuple(r["b"]), []).append((r["k"], tuple(r["e"])))
     acases = 0
     for b, offs in sorted(by_day.items()):
-        for i in range(0, len(offs), 8):
-            ajobs.append(("A", b, tab.num(*b), rng.randrange(86400), offs[i:i + 8]))
-            acases += len(offs[i:i + 8])
-    evals += run_arith(run, ajobs)
+        for i in range(0, len(offs), 4):
+            jobs.append(b + (tab.num(*b), rng.randrange(86400), offs[i:i + 4], "arith"))
+            acases += len(offs[i:i + 4])
+    # binding B: recorded walks
+    nt = 1600 if quick else 16000
+    per = 20
+    for i in range(nt // per):
+        jobs.append(("traces", rng.randrange(2 ** 30), per))
+    sample_day = next(j for j in jobs if j[-1] == "full")
+    rng.shuffle(jobs)               # far-future days are ~10x slower: spread them over the pool
+    evals, events, meta = run_jobs(run, jobs, 16)
+    run.sample({"DAY": {"date": list(sample_day[:3]), "n": sample_day[3], "second_of_day": sample_day[4],
+                        "offsets": sample_day[5]}})
     run.sample({"ARITH": arith[len(arith) // 2]})
-
-    # binding B
-    nt = 1500 if quick else 20000
-    events, meta = record_traces(rng, nt, tab)
     nev, nbad = validate_traces(run, events, meta)
     run.sample({"TRACE": events[:5]})
     ntr = sum(1 for e in events if e["op"] == "new")
 
+    ndistinct = (len(seen) if quick else LAST - FIRST + 1)
     run.cov["traces_validated_against_impl"] = ndays + acases + ntr
     run.cov["evaluations"] = evals + nev
-    run.cov["distinct_nontrivial"] = (len(seen) if quick else LAST - FIRST + 1) + acases + ntr
-    run.cov["rule"] = ("binding A: one case per distinct calendar day (all conversions, two to four offsets) "
-                       "plus one per distinct (base, k) pair of DateArith; binding B: one per recorded walk; "
-                       "evaluations counts calls of the real code (direct and interpreter expressions) and trace events")
+    run.cov["distinct_nontrivial"] = ndistinct + acases + ntr
+    run.cov["rule"] = ("binding A: one case per distinct calendar day (conversions, and offsets predicted by the "
+                       "TLC month table) plus one per distinct (base, k) pair of DateArith; binding B: one per "
+                       "recorded walk; evaluations counts calls of the real code (direct calls and interpreter "
+                       "expressions) and trace events")
     run.cov["exhaustive"] = not quick
     run.cov["bounds"] = {"days_of_walked_months": nwalk, "year_and_february_boundaries": nbound,
-                         "random_days_requested": nrand, "days_with_interpreter_checks": nfull + 10,
-                         "days_total": len(seen) if quick else LAST - FIRST + 1, "arith_cases": acases, "recorded_walks": ntr,
+                         "random_days_requested": nrand, "distinct_days": ndistinct,
+                         "arith_cases": acases, "recorded_walks": ntr,
                          "trace_events": nev, "trace_events_rejected": nbad,
-                         "day_numbers": [FIRST, LAST]}
+                         "day_numbers": [FIRST, LAST], "processes": NPROC}
     run.assumptions += [
         "'the same date to the second' is compared as equality of (year, month, day, hour, minute, second); "
         "microseconds of the result are ignored",
@@ -611,43 +626,9 @@ def run(run):
         "(d + n) - d must be the int n: a value of kind int that holds a Python float counts as a mismatch",
         "offsets are whole days; results outside 1900-01-01..9999-12-31 are never requested",
         "the quick tier relies on the WholeMonth invariant (month walk) for the days inside the months "
-        "that are not walked day by day; the thorough tier walks every day",
+        "that are not walked day by day; the thorough tier walks every day in TLC and calls "
+        "to_oa_date / to_date on every day",
     ]
-
-
-def _arith_worker(chunk):
-    global _IT
-    if _IT is None:
-        _IT = Interpreter(True, False)
-    out = []
-    cnt = 0
-    for (_tag, b, nb, s, offs) in chunk:
-        o, c = check_offsets(_IT, b, nb, s, offs)
-        out += o
-        cnt += c
-    return out, cnt
-
-
-def check_offsets(it, b, nb, s, offs):
-    """only the arithmetic part of check_day for base b"""
-    out, cnt = check_day(it, b[0], b[1], b[2], nb, s, [(k, e) for k, e in offs], True, conv=False)
-    return out, cnt
-
-
-def run_arith(run, ajobs):
-    chunks = [ajobs[i:i + 16] for i in range(0, len(ajobs), 16)]
-    total = 0
-    if NPROC > 1 and len(chunks) > 1:
-        ctx = multiprocessing.get_context("fork")
-        with ctx.Pool(NPROC) as pool:
-            results = pool.map(_arith_worker, chunks, chunksize=1)
-    else:
-        results = [_arith_worker(c) for c in chunks]
-    for out, cnt in results:
-        total += cnt
-        for key, what, case in out:
-            run.violation(key, what, case)
-    return total
 
 
 # ------------------------------------------------------------------ replay
@@ -655,7 +636,7 @@ def replay(run, case):
     kind = case["kind"]
     if kind == "direct":
         y, m, d = case["ymd"]
-        out, _ = check_day(None, y, m, d, case["n"], case["s"], [], full=False)
+        out, _ = check_day(None, y, m, d, case["n"], case["s"], [], "direct")
         for key, what, c in out:
             run.violation(key, what, c)
     elif kind == "expr":
